@@ -890,6 +890,44 @@ func c08SPSide(c *core.Ctx) {
 		}},
 		{"encryptedassertion-empty", func(ea *etree.Element) { ea.Child = nil }},
 	}
+	// the key-transport ciphertext with octets added around it: an RSA ciphertext is exactly as long as the modulus
+	for _, z := range []struct {
+		name      string
+		pre, post []byte
+	}{{"1-leading-zero", []byte{0}, nil}, {"2-leading-zeros", []byte{0, 0}, nil}, {"16-leading-zeros", make([]byte, 16), nil}, {"1-leading-nonzero", []byte{1}, nil},
+		{"1-trailing-zero", nil, []byte{0}}, {"modulus-length-of-leading-zeros", make([]byte, 256), nil}} {
+		z := z
+		sops = append(sops, sop{"encryptedkey-ciphervalue/" + z.name, func(ea *etree.Element) {
+			x := ea.FindElement("./EncryptedData/KeyInfo/EncryptedKey/CipherData/CipherValue")
+			raw, _ := base64.StdEncoding.DecodeString(x.Text())
+			x.SetText(base64.StdEncoding.EncodeToString(append(append(append([]byte{}, z.pre...), raw...), z.post...)))
+		}})
+	}
+	// data encrypted under one block cipher and declared as another: the declared algorithm fixes the key length, a transported key of
+	// another length is a malformed message (whichever AES variant would happen to fit it)
+	for _, realAlg := range []string{xenc.AES128CBC, xenc.AES192CBC, xenc.AES256CBC, xenc.TDESCBC} {
+		for _, declared := range []string{xenc.AES128CBC, xenc.AES192CBC, xenc.AES256CBC, xenc.TDESCBC, xenc.AES128GCM} {
+			if realAlg == declared || xenc.KeySize(realAlg) == xenc.KeySize(declared) {
+				continue
+			}
+			realAlg, declared := realAlg, declared
+			short := func(a string) string { return a[strings.LastIndex(a, "#")+1:] }
+			c.Case("spfault/declared-cipher-does-not-fit-the-transported-key/"+short(realAlg)+"-declared-as-"+short(declared), func(t *core.T) {
+				t.NonTrivial()
+				pub := spKey().Cert.PublicKey.(*rsa.PublicKey)
+				ed, err := xenc.Encrypt(realAlg, xenc.KeyTransport{Alg: xenc.OAEPMGF1P, DigestURI: "http://www.w3.org/2000/09/xmldsig#sha1"}, pub, spKey().CertB64, harness.NewCtr("mislabel"), goodPT)
+				if err != nil {
+					t.Fail("C08/harness/encrypt", "%v", err)
+					return
+				}
+				ed.FindElement("./EncryptionMethod").CreateAttr("Algorithm", declared)
+				ea := etree.NewElement("saml:EncryptedAssertion")
+				ea.CreateAttr("xmlns:saml", samlgen.NSAssertion)
+				ea.AddChild(ed)
+				mustReject(t, "declared-cipher-mismatch", mkResp(ea))
+			})
+		}
+	}
 	for _, o := range sops {
 		o := o
 		c.Case("spfault/structure/"+o.name, func(t *core.T) {
